@@ -58,7 +58,7 @@ contract(
 RES = Tuple(Union(NoneT, Str), Union(NoneT, Str), Int)
 STACK_SAME = "DIRSTACK == old(DIRSTACK)"
 contract(
-    D + "cd", "C16", params=dict(args=List(Str)), globals=G, config=CFG, returns=RES,
+    D + "cd", "C16", shards=2, params=dict(args=List(Str)), globals=G, config=CFG, returns=RES,
     externals=dict(EXT, pushd=Ext(ret=RES, havoc=["DIRSTACK"], note="pushd -n -q $PWD under $AUTO_PUSHD (see pushd_fn)")),
     requires={"in-step": SYNC, "no-P-flag": "len(args) == 0 or args[0] != '-P'"},
     modifies=["XSH.env", "DIRSTACK", "args", "CWD"], emits=["chdir", "on_chdir"],
@@ -87,11 +87,12 @@ ISN = "(dir_or_n is not None and not os.path.isdir(dir_or_n) and len(dir_or_n) >
 # index k (from the left of the dirs listing) that +N / -N designates
 LEFT = "('-' if old(XSH.env['PUSHD_MINUS']) else '+')"
 KIDX = "(int(%s[1:]) if %s.startswith(" + LEFT + ") else len(old(DIRSTACK)) - int(%s[1:]))"
+KIDX3 = KIDX % ("dir_or_n", "dir_or_n", "dir_or_n")
 PK = "(int(nth[1:]) if nth.startswith(('-' if old(XSH.env['PUSHD_MINUS']) else '+')) else len(old(DIRSTACK)) - int(nth[1:]))"
 PEXT = dict(EXT)
 PEXT["_change_working_directory"] = None
 contract(
-    D + "pushd_fn", "C16", params=dict(dir_or_n=Union(NoneT, Str), cd=Bool, quiet=Bool), globals=G, config=CFG, returns=RES,
+    D + "pushd_fn", "C16", shards=6, params=dict(dir_or_n=Union(NoneT, Str), cd=Bool, quiet=Bool), globals=G, config=CFG, returns=RES,
     externals=EXT, calls={"_change_working_directory": D + "_change_working_directory"},
     requires={"in-step": SYNC, "size-limit-positive": "XSH.env['DIRSTACK_SIZE'] >= 1", "listing-suppressed": "quiet",
               "home-expansion-is-identity-on-absolute-paths": "os.path.expanduser(XSH.env['PWD']) == XSH.env['PWD']",
@@ -102,16 +103,20 @@ contract(
     ensures={
         "in-step": SYNC,
         "stack-bounded-after-every-pushd": "implies(rc == 0, len(DIRSTACK) <= XSH.env['DIRSTACK_SIZE'])",
+        "stack-only-pushd-puts-the-directory-on-top": "implies(rc == 0 and not cd and dir_or_n is not None and os.path.isdir(dir_or_n), "
+            "DIRSTACK == ([os.path.expanduser(dir_or_n)] + old(DIRSTACK))[:XSH.env['DIRSTACK_SIZE']] and %s)" % UNCHANGED,
         "a-failed-pushd-changes-nothing": "implies(rc != 0, (%s) and %s)" % (UNCHANGED, STACK_SAME),
         "a-failed-pushd-reports-an-error": "implies(rc != 0, result[1] is not None)",
-        "pushd-dir-puts-the-old-directory-on-top": "implies(rc == 0 and cd and dir_or_n is not None and os.path.isdir(dir_or_n) and len(old(DIRSTACK)) < XSH.env['DIRSTACK_SIZE'], "
-            "DIRSTACK == [old(XSH.env['PWD'])] + old(DIRSTACK) and len(log('chdir')) == 1 and log('chdir')[0] == %s)" % (TARGET % "dir_or_n"),
-        "pushd-without-argument-swaps-the-top-two": "implies(rc == 0 and cd and dir_or_n is None and len(old(DIRSTACK)) <= XSH.env['DIRSTACK_SIZE'], "
-            "DIRSTACK == [old(XSH.env['PWD'])] + old(DIRSTACK)[1:] and len(log('chdir')) == 1 and log('chdir')[0] == %s)" % (TARGET % "old(DIRSTACK)[0]"),
-        "pushd-N-rotates-the-stack": "implies(rc == 0 and cd and %s and len(old(DIRSTACK)) + 1 <= XSH.env['DIRSTACK_SIZE'], "
-            "[XSH.env['PWD']] + DIRSTACK == (%s)[%s:] + (%s)[:%s] or %s == 0)" % (
-                ISN, VIEW, KIDX % ("dir_or_n", "dir_or_n", "dir_or_n"), VIEW, KIDX % ("dir_or_n", "dir_or_n", "dir_or_n"),
-                KIDX % ("dir_or_n", "dir_or_n", "dir_or_n")),
+        "pushd-dir-puts-the-old-directory-on-top": "implies(rc == 0 and cd and dir_or_n is not None and os.path.isdir(dir_or_n), "
+            "DIRSTACK == ([old(XSH.env['PWD'])] + old(DIRSTACK))[:XSH.env['DIRSTACK_SIZE']] and len(log('chdir')) == 1 and log('chdir')[0] == %s)" % (TARGET % "dir_or_n"),
+        "pushd-without-argument-swaps-the-top-two": "implies(rc == 0 and cd and dir_or_n is None, "
+            "DIRSTACK == ([old(XSH.env['PWD'])] + old(DIRSTACK)[1:])[:XSH.env['DIRSTACK_SIZE']] and len(log('chdir')) == 1 and log('chdir')[0] == %s)" % (TARGET % "old(DIRSTACK)[0]"),
+        # dirs' == dirs[k:] + dirs[:k], split by k so that each case is a simple sequence fact
+        "pushd-N-rotation-by-0-is-a-no-op": "implies(rc == 0 and cd and %s and len(old(DIRSTACK)) <= XSH.env['DIRSTACK_SIZE'] and %s == 0, [XSH.env['PWD']] + DIRSTACK == %s)" % (ISN, KIDX3, VIEW),
+        "pushd-N-rotation-by-the-last-entry": "implies(rc == 0 and cd and %s and len(old(DIRSTACK)) + 1 <= XSH.env['DIRSTACK_SIZE'] and len(old(DIRSTACK)) >= 1 and %s == len(old(DIRSTACK)), "
+            "[XSH.env['PWD']] + DIRSTACK == [old(DIRSTACK)[len(old(DIRSTACK)) - 1]] + [old(XSH.env['PWD'])] + old(DIRSTACK)[:len(old(DIRSTACK)) - 1])" % (ISN, KIDX3),
+        "pushd-N-rotates-the-stack": "implies(rc == 0 and cd and %s and len(old(DIRSTACK)) + 1 <= XSH.env['DIRSTACK_SIZE'] and 1 <= %s and %s < len(old(DIRSTACK)), "
+            "[XSH.env['PWD']] + DIRSTACK == (%s)[%s:] + (%s)[:%s])" % (ISN, KIDX3, KIDX3, VIEW, KIDX3, VIEW, KIDX3),
         "a-reported-success-is-a-real-change": 'implies(rc == 0 and len(log("chdir")) > 0, CWD == log("chdir")[len(log("chdir")) - 1])',
     },
     assumptions=["paths on the stack are absolute, so os.path.abspath(os.path.join($PWD, p)) names p itself (the rotation clause compares names)"],
@@ -119,7 +124,7 @@ contract(
 )
 
 contract(
-    D + "popd_fn", "C16", params=dict(nth=Union(NoneT, Str), cd=Bool, quiet=Bool), globals=G, config=CFG, returns=RES,
+    D + "popd_fn", "C16", shards=3, params=dict(nth=Union(NoneT, Str), cd=Bool, quiet=Bool), globals=G, config=CFG, returns=RES,
     externals=EXT, calls={"_change_working_directory": D + "_change_working_directory"},
     requires={"in-step": SYNC, "listing-suppressed": "quiet"},
     modifies=["XSH.env['PWD']", "XSH.env['OLDPWD']", "DIRSTACK", "CWD"], emits=["chdir", "on_chdir"],
